@@ -18,7 +18,7 @@ import (
 // status-only update / delete), delivered through the handlers the controller
 // really registered, followed by two ticks.
 func VerifH_C03_events() {
-	env := verifSetupCron(verifCronOpts{P: 1, K: 1, maxMissedHi: 2})
+	env := verifSetupCron(verifCronOpts{P: 1, K: 1, maxMissedHi: 2, warm: true})
 	v := env.jcs[0]
 	for _, e := range v.exprs {
 		e.CheckLoc = false
